@@ -224,3 +224,68 @@ def expected_leaves(inp):
         pos = cur
     out += [(inp.toks[i], i, False) for i in range(pos, n)]
     return out
+
+
+def single_input_line(impl_line, k):
+    """the dump part of an implementation line + the sections of its k-th input only"""
+    secs = impl_line.split(" # ")
+    head, groups = [], []
+    for sec in secs:
+        if sec.split(" ", 1)[0] == "I" or sec == "I":
+            groups.append([sec])
+        elif groups:
+            groups[-1].append(sec)
+        else:
+            head.append(sec)
+    return " # ".join(head + (groups[k] if k < len(groups) else []))
+
+
+def search_mirror_sets(r, k):
+    """Run the extracted mirror of the bucketed search (C06/Mirror.v, the code as it is now) on input k of r.
+    -> list per error of (status, set of plain sequence strings | None), or None when the model gave no answer.
+    Used to tell the KNOWN class 'the search as written reports a sequence that does not repair on a conflict-resolved
+    table' from any OTHER way of reporting a bad sequence: the known class is what the faithful mirror reproduces."""
+    from checks import C06 as c06
+    mexe = core.build_model("c06")
+    line = shrink_for_model(single_input_line(r.impl_line, k)) + " # OPT ncap=150000 maxedits=6 mfuel=10000 mirrors=2"
+    try:
+        out = core.run_lines([mexe], [line], shards=1, timeout=300)[0]
+    except Exception:
+        return None
+    if not out.startswith("V "):
+        return None
+    _, minputs = c06.parse_model(out)
+    if not minputs:
+        return None
+    res = []
+    for m in minputs[0]:
+        if m.status != "ok" or m.mf is None or m.mf[0] != "done":
+            res.append((m.status if m.status != "ok" else "nomirror", None, (m.pos, m.st)))
+        else:
+            res.append(("done", set(m.mf[1]), (m.pos, m.st)))
+    return res
+
+
+def plain_seq(seq):
+    return " ".join(st if st[0] == "I" else st[0] for st in seq) or "-"
+
+
+def known_class_confirmed(r, k, error_indices):
+    """True: at every listed error the faithful search mirror reports exactly the implementation's set (the bad sequence
+    is what the search as written produces: the recorded class).  False: the mirror ran and reports something else (a
+    different defect).  None: the mirror could not be consulted for some listed error (left to the recorded class)."""
+    ms = search_mirror_sets(r, k)
+    if ms is None:
+        return None
+    inp = r.inputs[k]
+    verdict = True
+    for ei in error_indices:
+        if ei >= len(ms) or ei >= len(inp.errors):
+            return None
+        st, mset, cfgm = ms[ei]
+        if st != "done" or cfgm != (inp.errors[ei][0], inp.errors[ei][1]):
+            verdict = None if verdict is True else verdict
+            continue
+        if mset != set(plain_seq(s) for s in inp.errors[ei][3]):
+            return False
+    return verdict
